@@ -33,11 +33,11 @@ _M = object()
 def bounds(tier):
     return ('quick: all 22 families: mappings N=4,V=2 (531441 triples) in C and Python for the cover '
             'families, N=3 (19683) for the others; sets N=4 (4096) / N=5; link variants and tree '
-            'wrappers N=3; thorough: mappings N=5 (14.3M) in C for the cover families, N=4 all')
+            'wrappers N=3; nearly equal values (values2) N=3; receivers that are subclass instances N=3; thorough: mappings N=5 (14.3M) in C for the cover families, N=4 all')
 
 
 def required_guards(tier):
-    return ['merged', 'refused', 'link_variants', 'wrapped', 'multi_leaf', 'malformed',
+    return ['merged', 'refused', 'link_variants', 'wrapped', 'subclass_receiver', 'multi_leaf', 'malformed',
             'reason:1', 'reason:2', 'reason:3', 'reason:4', 'reason:5', 'reason:6', 'reason:7',
             'reason:8', 'reason:12', 'reason:13', 'reason:0', 'reason:11']
 
@@ -57,6 +57,10 @@ def jobs(tier):
         js.append({'fn': 'triples_job', 'weight': 3, 'group': 'Set',
                    'args': dict(fam=fam, kind='Set', n=n_set, chunk=0, chunks=1)})
         js.append({'fn': 'variants_job', 'weight': 5, 'group': 'variants', 'args': dict(fam=fam)})
+        # the same triples over NEARLY equal values (vt.fam.values2): a value test that looks at part of
+        # the value only sees no change where there is one
+        js.append({'fn': 'triples_job', 'weight': 2, 'group': 'Bucket/values2',
+                   'args': dict(fam=fam, kind='Bucket', n=3, chunk=0, chunks=1, values2=True)})
     return js
 
 
@@ -159,15 +163,15 @@ def judge(rep, guards, base, want, rc, rp, expect_state, what, extra=None):
         guards['merged'] += 1
 
 
-def triples_job(fam, kind, n, chunk, chunks):
+def triples_job(fam, kind, n, chunk, chunks, values2=False):
     is_map = kind == 'Bucket'
     keys, grid = F.universe(fam, n, 'centred')
-    vals = F.values(fam)
+    vals = F.values2(fam) if values2 else F.values(fam)
     ccls, pcls = F.cls(fam, kind, 'c'), F.cls(fam, kind, 'py')
     states = leaf_states(keys, vals, is_map)
     rep = Reporter('C07')
     guards = collections.Counter()
-    base = dict(fam=fam, kind=kind, n=n)
+    base = dict(fam=fam, kind=kind, n=n, values2=values2)
     evaluations = 0
     distinct = 0
     sample = None
@@ -246,6 +250,8 @@ def variants_job(fam):
         ccls, pcls = F.cls(fam, kind, 'c'), F.cls(fam, kind, 'py')
         tkind = F.tree_kind_of(kind)
         tc, tp = F.cls(fam, tkind, 'c'), F.cls(fam, tkind, 'py')
+        from .c10 import subclass_of
+        sub_c, sub_p, sub_tc, sub_tp = (subclass_of(x) for x in (ccls, pcls, tc, tp))
         states = leaf_states(keys, vals, is_map)
         base = dict(fam=fam, kind=kind, n=n)
         X, Y = ccls(), ccls()       # two distinct successor objects
@@ -272,6 +278,13 @@ def variants_job(fam):
                       dict(old=(fo,), committed=(fc,), new=(fn,), links=lname), dict(links=lname))
                 if lname != 'none':
                     continue
+                # the receiver may be an instance of an application subclass (class Catalog(IIBTree))
+                rc, rp = call(sub_c, so, sc, sn), call(sub_p, so, sc, sn)
+                evaluations += 2
+                guards['subclass_receiver'] += 1
+                judge(rep, guards, base, want, rc, rp, exp,
+                      dict(old=(fo,), committed=(fc,), new=(fn,), receiver='subclass'),
+                      dict(form='subclass'))
                 # tree wrappers around one embedded leaf; empty trees are spelled None
                 wrap = lambda f: None if not f else (((f,),),)
                 wo, wc, wn = wrap(fo), wrap(fc), wrap(fn)
@@ -281,6 +294,12 @@ def variants_job(fam):
                 guards['wrapped'] += 1
                 judge(rep, guards, dict(base, kind=tkind), want, rc, rp, wexp,
                       dict(old=wo, committed=wc, new=wn), dict(form='wrapped'))
+                rc, rp = call(sub_tc, wo, wc, wn), call(sub_tp, wo, wc, wn)
+                evaluations += 2
+                guards['subclass_receiver'] += 1
+                judge(rep, guards, dict(base, kind=tkind), want, rc, rp, wexp,
+                      dict(old=wo, committed=wc, new=wn, receiver='subclass'),
+                      dict(form='wrapped-subclass'))
         # multi-leaf tree states: always a refusal
         l1, l2 = ccls(), ccls()
         multi = ((l1, keys[1], l2), l1)
@@ -325,8 +344,14 @@ def replay(case):
     rep = Reporter('C07', cap=10**9)
     guards = collections.Counter()
     fam, kind = case['fam'], case['kind']
-    if case.get('form') in ('multi-leaf', 'malformed') or 'links' in case and case['links'] != 'none':
+    if case.get('form') in ('multi-leaf', 'malformed') or case.get('receiver') or 'links' in case and case['links'] != 'none':
         r = variants_job(fam)
+        if case.get('receiver'):
+            import json
+            from ..runner import _jsonable
+            norm = lambda x: json.dumps(_jsonable(x), sort_keys=True, default=repr)
+            return dict(violations=[v for v in r['violations'] if v['case'].get('receiver') and all(
+                norm(v['case'].get(k)) == norm(case.get(k)) for k in ('kind', 'old', 'committed', 'new'))][:5])
         return dict(violations=[v for v in r['violations'] if v['case'].get('form') == case.get('form')
                                 or v['case'].get('links') == case.get('links')][:5])
     ccls, pcls = F.cls(fam, kind, 'c'), F.cls(fam, kind, 'py')
